@@ -589,6 +589,7 @@ func runC18(c *report.Ctx) {
 	_ = sort.Strings
 	ruleNoMemoryTipUnderUpdate(c)
 	ruleImportRetryOverride(c)
+	ruleQueueHeadroom(c)
 }
 
 // closureArg returns the function literal passed as argument #i of call.
